@@ -411,6 +411,13 @@ def check(prop, tier):
         return 2
     plan = PLAN[prop]
     rundir = os.path.join(RUN, "%s-%s" % (prop, tier))
+    # two invocations of the same check share the run directory: the second one waits (it would otherwise delete the
+    # journals of the first, whose children then look as if they had died without a record)
+    os.makedirs(RUN, exist_ok=True)
+    import fcntl
+    _lock = open(rundir + ".lock", "w")
+    fcntl.flock(_lock, fcntl.LOCK_EX)
+    check._lock = _lock   # held until the process exits
     shutil.rmtree(rundir, ignore_errors=True)
     os.makedirs(rundir, exist_ok=True)
     keep = os.path.join(RUN, "replays")
